@@ -141,8 +141,13 @@ def mutate_once(nb, gen, op=None):
         cc = r.random()
         if att and cc < 0.3:
             del att[r.choice(sorted(att))]
-        elif att and cc < 0.6:
+        elif att and cc < 0.45:
             att[r.choice(sorted(att))] = gen.mimebundle(True)
+        elif att and cc < 0.6:
+            # change INSIDE one attachment's bundle: one mime value edited / retyped / replaced by a like-typed scalar
+            bundle = att[r.choice(sorted(att))]
+            if bundle:
+                _edit_bundle(bundle, gen)
         else:
             att[r.choice(["a.png", "b.png", "c.png", "fig 1.svg"])] = gen.mimebundle(True)
         if not att and r.random() < 0.5:
@@ -218,6 +223,16 @@ def _edit_bundle(data, gen):
             data[k] = nb.get(k, gen.mimebundle(True).get(k, "changed"))
             if k in ("application/json", "application/vnd.custom+json") and k not in nb:
                 data[k] = gen.value(1)
+            if k in ("application/json", "application/vnd.custom+json") and not isinstance(v, (str, list, dict)) and r.random() < 0.7:
+                # a bare JSON scalar replaced by another scalar of the SAME type
+                if isinstance(v, bool):
+                    data[k] = not v
+                elif isinstance(v, int):
+                    data[k] = v + r.randrange(1, 9)
+                elif isinstance(v, float):
+                    data[k] = v + 0.5
+                else:
+                    data[k] = r.randrange(100)
     elif data and cc < 0.65:
         del data[r.choice(sorted(data))]
     else:
